@@ -5,7 +5,7 @@
  *   cpu_migrate_thread  cr_cpu_migrate_thread  proved in harness/c05_cpu.c (bounded lists)
  *   thread_migrate_cpu  cr_thread_migrate_cpu  proved in harness/c05_thread.c
  *   loom_get_cpu        cr_loom_get_cpu        proved in harness/c05_loom.c
- *   proc_find_thread, loom_find_thread         ASSUMED (uthash lookups): any thread or NULL */
+ *   proc_find_thread, loom_find_thread         STUBS (uthash lookups): any thread or NULL */
 #include "prelude.h"
 #include "chan.h"
 #include "harness/c05_chanlog.h"   /* cr_chan_set, ghost log */
@@ -22,9 +22,12 @@ struct cpu *g_oldcpu, *g_newcpu;   /* harness: the thread's CPU; the CPU the eve
 struct thread *g_rt;               /* harness: the thread that migrates (NULL: remote thread not found) */
 static inline int logged_cpu_migrate_thread(struct cpu *cpu, struct thread *thread, struct cpu *newcpu)
 {
-	/* hand symex the harness's own pointers instead of values read back
-	 * through the CPU table or returned by a replaced contract (which may name
-	 * several 50 KB objects); that they are the same pointers is asserted */
+	/* Hand the replaced callee the harness's own pointers instead of values
+	 * read back through the CPU table or returned by a replaced contract
+	 * (loom_get_cpu): those have no usable value set, and dereferencing them
+	 * in the callee's contract made CBMC 6.11 crash (SIGSEGV in
+	 * simplify_inequality) or try every object of the program (out of
+	 * memory).  That they are the same pointers is asserted first. */
 	__CPROVER_assert(cpu == g_oldcpu && thread == g_rt && newcpu == g_newcpu,
 		"ghosts g_oldcpu, g_rt, g_newcpu name the arguments of the migration");
 	__CPROVER_assume(cpu == g_oldcpu && thread == g_rt && newcpu == g_newcpu);
@@ -50,22 +53,18 @@ static inline int named_thread_migrate_cpu(struct thread *th, struct cpu *cpu)
 #include "harness/c05_thread.h"     /* cr_thread_migrate_cpu */
 #include "harness/c05_loom.h"       /* cr_loom_get_cpu */
 
-/* ---- assumed contracts: uthash lookups return any thread (chosen by the
- * ghosts, constrained in the callers' requires) or NULL ---- */
+/* ---- stubs for the uthash lookups (outside the unit): they return whatever
+ * the harness chose -- any thread or NULL, independently of each other.  (An
+ * assumed CONTRACT in their place leaves the returned pointer without a value
+ * set; the handler dereferences it and CBMC then tries every object of the
+ * program: out of memory.) ---- */
 struct thread *g_pf;               /* what proc_find_thread finds */
 struct thread *g_lf;               /* what loom_find_thread finds */
-struct thread *ca_proc_find_thread(struct proc *proc, int tid)
-__CPROVER_assigns()
-__CPROVER_ensures((g_pf == NULL && __CPROVER_return_value == NULL) || (g_pf != NULL && __CPROVER_pointer_equals(__CPROVER_return_value, g_pf)))
-;
-struct thread *ca_loom_find_thread(struct loom *loom, int tid)
-__CPROVER_assigns()
-__CPROVER_ensures((g_lf == NULL && __CPROVER_return_value == NULL) || (g_lf != NULL && __CPROVER_pointer_equals(__CPROVER_return_value, g_lf)))
-;
+struct thread *proc_find_thread(struct proc *proc, int tid) { (void) proc; (void) tid; return g_pf; }
+struct thread *loom_find_thread(struct loom *loom, int tid) { (void) loom; (void) tid; return g_lf; }
 
 /* ---- heap, built by the harness (concrete allocations, nondeterministic
- * choices; CBMC 6.11 crashes -- SIGSEGV in simplify_inequality -- on the same
- * shape written with is_fresh / pointer_equals alternatives in requires) ----
+ * choices) ----
  * th: the thread that may migrate.  Its current CPU is absent, the loom's
  * virtual CPU, or a physical CPU.  The CPU named by the event is the virtual
  * CPU (index -1), nothing, or cell = loom->cpus_array[index], which is NULL,
@@ -134,11 +133,11 @@ static void mk_emu(void)
 }
 
 /* th with its list links and CPU; the cell the index names; the lists.
- * The combinations of (current CPU, named CPU) are split into six scenarios so
+ * The combinations of (current CPU, named CPU) are split into six cases so
  * that in each of them the two CPU arguments of the migration are single
- * objects (a pointer that may name two 50 KB objects makes every havoc of the
- * replaced callee a whole-object byte update: minutes).  A group fixes the
- * scenario with -DC05_SCEN=k; together the scenarios cover every combination:
+ * objects (measured: with pointers that may name two 50 KB objects symbolic
+ * execution of the replaced callee's havoc did not finish in 4 min).  A group
+ * fixes the case with -DC05_SCEN=k; together the cases cover every combination:
  *   0  no current CPU;       any index; cell NULL or another CPU
  *   1  on the virtual CPU;   index -1                      (same CPU)
  *   2  on the virtual CPU;   index != -1; cell NULL or another CPU
@@ -146,13 +145,13 @@ static void mk_emu(void)
  *   4  on a physical CPU P;  index != -1; cell NULL or P   (none / same CPU)
  *   5  on a physical CPU P;  index != -1; cell another CPU Q */
 #ifndef C05_SCEN
-#error "define C05_SCEN=0..5"
+#error "define C05_SCEN=0..5 (6: remote thread not found)"
 #endif
 static int pick_index(void)
 {
 	int idx = nondet_int();
 	if (C05_SCEN == 1 || C05_SCEN == 3)
-		idx = -1;
+		idx = -1;   /* scenarios 0 and 6: any index */
 	if (C05_SCEN == 2 || C05_SCEN == 4 || C05_SCEN == 5)
 		__CPROVER_assume(idx != -1);
 	return idx;
@@ -191,7 +190,7 @@ static void mk_thread_and_cpus(struct thread *th, int idx)
 static void name_neighbours(struct thread *th, int idx)
 {
 	g_oldcpu = (th != NULL) ? th->cpu : NULL;
-	g_newcpu = (C05_SCEN == 1 || C05_SCEN == 3) ? &g_loom->vcpu : (C05_SCEN == 0 && idx == -1) ? &g_loom->vcpu : g_cell;
+	g_newcpu = (C05_SCEN == 1 || C05_SCEN == 3) ? &g_loom->vcpu : ((C05_SCEN == 0 || C05_SCEN == 6) && idx == -1) ? &g_loom->vcpu : g_cell;
 	g_nb_next = (th != NULL) ? th->cpu_next : NULL;
 	g_nb_prev = (th != NULL) ? th->cpu_prev : NULL;
 	g_o_head = (g_oldcpu != NULL) ? g_oldcpu->threads : NULL;
@@ -214,9 +213,8 @@ static void name_neighbours(struct thread *th, int idx)
 
 /* Frame of a handler that migrates g_rt from g_oldcpu to g_newcpu.  The
  * objects cpu_migrate_thread's path-expressed frame reaches are named by ghosts
- * that the harness sets from the pre-state heap (one-level targets: CBMC 6.11
- * crashes on the equivalent nested paths such as cpu->threads->cpu_prev->cpu_next
- * over this many pointer alternatives):
+ * that the harness sets from the pre-state heap (bound to the paths in
+ * NEIGHBOURS_BOUND; one-level targets keep the frame-inclusion check cheap):
  *   g_nb_next = g_rt->cpu_next      g_nb_prev = g_rt->cpu_prev
  *   g_o_head  = g_oldcpu->threads
  *   g_n_head  = g_newcpu->threads   g_n_tail  = g_newcpu->threads->cpu_prev */
@@ -236,7 +234,9 @@ __CPROVER_assigns(g_guards && !g_same && g_nb_prev != NULL: g_nb_prev->cpu_next)
 __CPROVER_assigns(g_guards && !g_same && g_o_head != NULL: g_o_head->cpu_prev) \
 __CPROVER_assigns(g_guards && !g_same && g_n_head != NULL: g_n_head->cpu_prev, g_n_tail->cpu_next)
 
-#define AFF_PRE (g_cs_n == 0 && g_mig_n == 0 && g_cb_calls < 100u && DIAG_PRE)
+/* empty logs; g_cell is the table entry the index names */
+#define AFF_PRE (g_cs_n == 0 && g_mig_n == 0 && g_cb_calls < 100u && DIAG_PRE && \
+	(IDX_IN_RANGE(g_loom, g_idx) ? g_loom->cpus_array[g_idx] == g_cell : g_cell == NULL))
 
 /* pre-state facts bound in ghosts (enforce-only contracts) */
 int g_guards;                 /* every guard of the handler holds */
@@ -343,20 +343,29 @@ void h_pre_affinity_remote(void)
 	mk_emu();
 	g_idx = pick_index();
 	g_tid = nondet_int();
-	/* what the lookups find: each of them nothing or the thread T (a second
-	 * thread found in the loom while the process lookup succeeds is never
-	 * looked at: loom_find_thread is then not called) */
+	/* what the lookups find.  Scenario 6: nothing.  Otherwise the thread T, in
+	 * the process or else in the loom (a thread found in the loom while the
+	 * process lookup succeeds is never looked at: loom_find_thread is then not
+	 * called).  A pointer "T or NULL" to the 32 KB thread in the clauses makes
+	 * CBMC run out of memory, hence the separate scenario. */
+#if C05_SCEN == 6
+	g_pf = NULL; g_lf = NULL; g_rt = NULL; g_cell = NULL;
+	mk_list_other(&g_loom->vcpu);
+#else
 	struct thread *T = new_thread();
 	g_pf = nondet_bool() ? T : NULL;
-	g_lf = nondet_bool() ? T : NULL;
-	g_rt = (g_pf != NULL || g_lf != NULL) ? T : NULL;
+	g_lf = (g_pf == NULL || nondet_bool()) ? T : NULL;
+	g_rt = T;
 	mk_thread_and_cpus(T, g_idx);
+#endif
 	name_neighbours(g_rt, g_idx);
 	chan_cb_t keep = stub_dirty_cb; (void) keep;
 	WITNESS_OFF(chan_set); WITNESS_OFF(thread_migrate_cpu); WITNESS_OFF(loom_get_cpu);
 	int r = pre_affinity_remote(g_emu);
-#if C05_SCEN == 0
+#if C05_SCEN == 6
 	if (r != 0 && w_psize == 8 && !w_found_proc && !w_found_loom) REACH("unknown thread refused");
+	if (r != 0 && w_psize != 8) REACH("bad payload size refused (no target thread)");
+#elif C05_SCEN == 0
 	if (r != 0 && w_psize == 8 && w_state == TH_ST_PAUSED && !w_hascpu) REACH("thread without cpu refused");
 	if (r != 0 && w_psize != 8) REACH("bad payload size refused");
 #elif C05_SCEN == 1
